@@ -325,7 +325,8 @@ func (c *nxCluster) check() string {
 func (c *nxCluster) Canon() []byte {
 	b := &verifkit.CanonBuf{}
 	for _, h := range c.hosts {
-		b.Sep('H').U(h.id).Bool(h.up).Bool(c.lazy[h.id]).Bool(c.scriptHold[h.id])
+		// the incarnation seeds the request keys of the host: part of the state
+		b.Sep('H').U(h.id, uint64(h.incar)).Bool(h.up).Bool(c.lazy[h.id]).Bool(c.scriptHold[h.id])
 		if h.up {
 			n := h.node
 			raft.VPeer{P: &n.p}.Canon(b)
@@ -352,6 +353,7 @@ func (c *nxCluster) Canon() []byte {
 			b.Bool(ok).U(e.Term).S(string(e.Cmd))
 		}
 	}
+	b.Sep('R').U(c.rnd.n) // identifiers (read contexts, request keys) handed out so far
 	b.Sep('M').U(uint64(len(c.msgs)))
 	for _, it := range c.msgs {
 		m := it.m
